@@ -10,6 +10,7 @@
   the domain `Val.wf` (strings < 2^31 bytes, sizes < 2^31, field type ≠ STOP, message type < 2^16).
 -/
 import Verif.Lemmas.WireRd
+import Verif.Lemmas.WireTotal
 namespace Verif.C01
 open Verif.Wire
 
@@ -90,6 +91,37 @@ theorem stream_read_enc_live (v : Val) (hv : v.wf) (r : Rd) (rest : Bytes) (hI :
     ∃ r', brRead v.kind r = .ok (v, r') ∧ remaining r' = rest ∧ r'.readLen = r.readLen + (enc v).length := by
   obtain ⟨r', h1, h2, h3⟩ := stream_read_enc liveCursor v hv r rest hrem ⟨hI, hl⟩
   exact ⟨r', h1, h2, h3⟩
+
+/-- stream_read_refines: the converse direction, with NO liveness assumed — on every reader state with
+    the representation invariant and under every source script, whenever a stream reader returns a
+    value, the buffer reader run on the remaining stream returns the same value with some length n,
+    exactly those n bytes have been consumed and ReadLen grew by n. With `read_enc`: if the remaining
+    stream starts with `enc v` (v in the domain) a stream read can only return `v` and consume
+    `len(enc v)` bytes, or fail — it never returns another value, however the stream is fragmented. -/
+theorem stream_read_refines (k : Kind) (r : Rd) (v : Val) (r' : Rd) (hI : RInv r)
+    (h : brRead k r = .ok (v, r')) :
+    ∃ n, binRead k (remaining r) = .ok (v, n) ∧ remaining r = (remaining r).take n ++ remaining r' ∧
+         n ≤ (remaining r).length ∧ r'.readLen = r.readLen + n ∧ RInv r' :=
+  brRead_refines k r v r' hI h
+
+/-- corollary: on `enc v ++ rest` a stream read returns `v` and consumes `len(enc v)`, or it fails -/
+theorem stream_read_only_enc (v : Val) (hv : v.wf) (r : Rd) (rest : Bytes) (hI : RInv r)
+    (hrem : remaining r = enc v ++ rest) (w : Val) (r' : Rd) (h : brRead v.kind r = .ok (w, r')) :
+    w = v ∧ r'.readLen = r.readLen + (enc v).length ∧ remaining r' = rest := by
+  obtain ⟨n, h1, h2, _, h4, _⟩ := brRead_refines v.kind r w r' hI h
+  rw [hrem, read_enc v hv rest] at h1
+  simp at h1
+  obtain ⟨e1, e2⟩ := h1
+  refine ⟨e1.symm, by rw [h4, ← e2], ?_⟩
+  rw [hrem, ← e2] at h2
+  simp at h2
+  exact h2.symm
+
+/-- stream_read_total: on every such state every stream reader returns normally — a value or an
+    error, never a panic (no `(nil, nil)` from Next, no exhausted loop) -/
+theorem stream_read_total (k : Kind) (r : Rd) (hI : RInv r) :
+    (∃ v r', brRead k r = .ok (v, r')) ∨ (∃ e, brRead k r = .err e) :=
+  brRead_total k r hI
 
 /-! ## non-vacuity: concrete instances of the hypotheses -/
 
